@@ -421,6 +421,7 @@ func runAll(a *hlib.Args, e *hlib.Emitter, cases []rl.Case) error {
 	}
 	wg.Wait()
 	if os.Getenv("C05_PROFILE") != "" {
+		fmt.Fprintf(rl.Stderr, "prof create=%v handler=%v run=%v close=%v rm=%v\n", time.Duration(rl.Prof[0]), time.Duration(rl.Prof[1]), time.Duration(rl.Prof[2]), time.Duration(rl.Prof[3]), time.Duration(rl.Prof[5]))
 		for k, v := range spent {
 			fmt.Fprintf(rl.Stderr, "  %-32s %v\n", k, v)
 		}
